@@ -53,9 +53,13 @@ def msg(start, headers, body=b"", content_length=True, cl_name=b"Content-Length"
 
 
 class Scenario:
-    def __init__(self, block, name=b"svc.example.com", keep=False, dialog_timeout=1200):
+    def __init__(self, block, name=b"svc.example.com", keep=False, dialog_timeout=1200, keep_env=None):
+        """keep: the service's keepNextHopRoute setting, a bool or the text as the YAML shall have it (b"" = the key is
+        left out); keep_env: value of the environment variable KEEP_NEXT_HOP_ROUTE the proxy is started under (None = unset)"""
         self.block = block
-        self.name, self.keep, self.dialog_timeout = name, keep, dialog_timeout
+        self.name, self.dialog_timeout = name, dialog_timeout
+        self.keep = keep if isinstance(keep, bytes) else (b"true" if keep else b"false")
+        self.keep_env = keep_env
         self.routes, self.hosts, self.listens = [], [], []
         self.tcp_listeners, self.udp_endpoints, self.events = [], [], []
         self.meta = {}
@@ -110,7 +114,8 @@ class Scenario:
     def yaml(self):
         y = b"proxies:\n- name: \"" + self.name.replace(b"\\", b"\\\\").replace(b"\"", b"\\\"") + b"\"\n"
         y += b"  dialogTimeout: %d\n" % self.dialog_timeout
-        y += b"  keepNextHopRoute: \"%s\"\n" % (b"true" if self.keep else b"false")
+        if self.keep != b"":
+            y += b"  keepNextHopRoute: \"%s\"\n" % self.keep
         y += b"  listens:\n"
         for l in self.listens:
             y += b"  - address: " + l["addr"] + b"\n"
@@ -142,7 +147,7 @@ class Scenario:
         return y
 
     def toks(self):
-        t = [self.name, self.keep, self.dialog_timeout, len(self.routes)]
+        t = [self.name, self.keep + (b"|" + self.keep_env if self.keep_env is not None else b""), self.dialog_timeout, len(self.routes)]
         for r in self.routes:
             t += list(r)
         t.append(len(self.hosts))
